@@ -12,6 +12,8 @@ struct Counting<I> {
     calls: Rc<Cell<usize>>,
     after_err: Rc<Cell<bool>>,
     erred: bool,
+    /// what `size_hint` reports as upper bound (a legal, arbitrarily loose bound)
+    upper: Option<usize>,
 }
 impl<I: Iterator<Item = Result<char, ()>>> Iterator for Counting<I> {
     type Item = Result<char, ()>;
@@ -25,6 +27,21 @@ impl<I: Iterator<Item = Result<char, ()>>> Iterator for Counting<I> {
             self.erred = true;
         }
         x
+    }
+    fn size_hint(&self) -> (usize, Option<usize>) {
+        (0, self.upper)
+    }
+}
+
+/// A character source with a chosen `size_hint` upper bound.
+struct Hinted<I>(I, Option<usize>);
+impl<I: Iterator<Item = char>> Iterator for Hinted<I> {
+    type Item = char;
+    fn next(&mut self) -> Option<char> {
+        self.0.next()
+    }
+    fn size_hint(&self) -> (usize, Option<usize>) {
+        (0, self.1)
     }
 }
 
@@ -56,11 +73,29 @@ pub fn eval(line: &str) -> String {
             let n = s.chars().count();
             let calls = Rc::new(Cell::new(0));
             let after = Rc::new(Cell::new(false));
-            let it = Counting { inner: s.chars().map(Ok::<char, ()>), calls: calls.clone(), after_err: after.clone(), erred: false };
+            let it = Counting { inner: s.chars().map(Ok::<char, ()>), calls: calls.clone(), after_err: after.clone(), erred: false, upper: None };
             let r2 = Value::parse_utf8_with(it, opts(o));
-            let c2 = class(&r2);
+            let mut c2 = class(&r2);
             if let Ok((v, _)) = r2 {
                 drop_deep(v);
+            }
+            // sources whose size_hint gives a huge (legal) upper bound, through the fallible and the infallible entry points
+            for upper in [Some(usize::MAX), Some(1usize << 40), Some(0)] {
+                let it = Counting { inner: s.chars().map(Ok::<char, ()>), calls: Rc::new(Cell::new(0)), after_err: Rc::new(Cell::new(false)), erred: false, upper: if upper == Some(0) { Some(n) } else { upper } };
+                let r = Value::parse_utf8_with(it, opts(o));
+                if class(&r) != c2 {
+                    c2 = "SIZE-HINT-CHANGES-OUTCOME";
+                }
+                if let Ok((v, _)) = r {
+                    drop_deep(v);
+                }
+                let r = Value::parse_utf8_infallible_with(Hinted(s.chars(), upper), opts(o));
+                if class(&r) != c2 {
+                    c2 = "SIZE-HINT-CHANGES-OUTCOME";
+                }
+                if let Ok((v, _)) = r {
+                    drop_deep(v);
+                }
             }
             let pulls = if calls.get() <= n + 4 && !after.get() { "ok".to_string() } else { format!("BAD({}/{})", calls.get(), n) };
             // the same text cut in the middle by a stream error: never pulled past the error
@@ -72,6 +107,7 @@ pub fn eval(line: &str) -> String {
                 calls: calls3.clone(),
                 after_err: after3.clone(),
                 erred: false,
+                upper: Some(usize::MAX),
             };
             let r3 = Value::parse_utf8_with(it3, opts(o));
             let pulls3 = if calls3.get() <= cut + 1 && !after3.get() { "ok".to_string() } else { format!("BAD({}/{})", calls3.get(), cut) };
